@@ -130,6 +130,14 @@ def def_cases(tier):
             cases.append(("unnamed_two_params/" + kind, src, call, ("define", "ValueError")))
             src, call = member(kind, ["@icontract.snapshot(lambda self, x: len(x), name='n')", "@icontract.ensure(lambda OLD: OLD.n == 1)"])
             cases.append(("named_two_params_ok/" + kind, src, call, ("ok",)))
+        # a capture whose own code raises (a TypeError: the kind of error a mis-supplied argument would give as well): it is
+        # evaluated once, the error reaches the caller, nothing is retried
+        helper = ("def raising_cap(x):\n    CALLS.append('cap')\n    raise TypeError('boom of the capture')\n"
+                  "def once(thunk):\n    try:\n        thunk()\n    except TypeError as e:\n        assert 'boom of the capture' in str(e), e\n"
+                  "    else:\n        raise AssertionError('the error of the capture is lost')\n"
+                  "    if CALLS != ['cap']:\n        raise AssertionError('the capture ran {} times'.format(len(CALLS)))\n")
+        src, call = member(kind, ["@icontract.snapshot(raising_cap, name='a')", ens])
+        cases.append(("raising_capture_once/" + kind, helper + src, "once(lambda: {})".format(call), ("ok",)))
         # unnamed capture with several parameters, only one of them mandatory
         src, call = member(kind, ["@icontract.snapshot(lambda x, n=2: x[:n])", ens])
         cases.append(("unnamed_two_params_one_defaulted/" + kind, src, call, ("define", "ValueError")))
